@@ -1,6 +1,8 @@
 package props
 
 import (
+	"golang.org/x/tools/go/ssa"
+
 	"sort"
 	"strings"
 
@@ -15,7 +17,7 @@ func init() {
 			"without RequireLocalAuthz; that a refusal sends one ERROR — unless the message is an unacknowledged PUBLISH — carrying the message's type and request id (one arm per dispatched type) and " +
 			"authorization_failed exactly when the Authorizer returned an error, else not_authorized; that no broker/dealer code is reachable from the refusal path.",
 		NotDecided: "what a user Authorizer does to the message or session (it is called under the session lock with a copy of id/details), behaviour over histories.",
-		Run: runC10,
+		Run:        runC10,
 	})
 }
 
@@ -76,7 +78,31 @@ func runC10(c *Ctx) {
 		}
 		c.R.Check(bad == "", r3, az, "no broker/dealer code reachable from authzMessage", c.P.FuncPos(fn), "reaches "+bad)
 	}
-	c.R.Floor(r3, 16)
+	// a realm created from the realm template is configured by a whole copy of the template (so with its Authorizer
+	// and authorization options), only the URI differs
+	at := "router.(*router).AttachClient$2"
+	if fn := c.Fn(r3, at); fn != nil {
+		whole := len(matches(fn, `^store:&local:config=\*\^r\.realmTemplate$`)) > 0
+		var lit []string
+		for _, in := range ir.Instrs(fn) {
+			if a, ok := in.(*ssa.Alloc); ok && ir.TypeStr(a.Type()) == "*router.RealmConfig" {
+				for _, v := range ir.LiteralFields(a)["Authorizer"] {
+					lit = append(lit, ir.Desc(v))
+				}
+			}
+		}
+		litOK := len(lit) > 0
+		for _, v := range lit {
+			if !re(`realmTemplate\.Authorizer$`).MatchString(v) {
+				litOK = false
+			}
+		}
+		c.R.Check(whole || litOK, r3, at, "template realm inherits the template's Authorizer", c.P.FuncPos(fn),
+			"the configuration of a realm created from the template is neither a whole copy of the template nor a literal whose Authorizer comes from it: such realms would act on every message unchecked")
+		c.AllMatch(r3, at, "only the URI of the copied template is changed", `^store:&local:config\.&`, `^store:&local:config\.&URI=\^hello\.Realm$`, 1)
+	}
+	ruleOnlyInProcessIsLocal(c, r3) // the local-session exemption applies to in-process sessions only
+	c.R.Floor(r3, 20)
 
 	const r4 = "C10.R4 refusal carries the request id of every dispatched message type"
 	dispatched := typesIn(c, him, `^`+inMsg+`\.\(\*wamp\.([A-Za-z]+)\),ok#1$`)
